@@ -1741,6 +1741,41 @@ theorem cumsum_get (l : List Int) (acc : Int) (i : Nat) (h : i < l.length) :
       simp [Int.add_assoc]
 
 
+
+/-- **C18.repr_logic_roundtrip_partial**: every text of the `repr` shape (what `float_to_strings`
+writes for a finite double; the shape is checked on the real output on every run) is a numeral of the
+grammar, and — exponent within int64 — the float parser's logic evaluates it to exactly the value it
+denotes. So the logic of `str_to_float ∘ float_to_strings` is the identity on the denoted decimal; what
+remains unproved is only the rounding of the parser's floating-point operations (≤ 4 ulps, corresponded)
+and Python's guarantee that `repr(x)` denotes a decimal that rounds to `x`. -/
+theorem repr_logic_roundtrip_partial (t : Bytes) (h : reprGrammar t = true)
+    (hx : ∀ c, findByte 101 t = some c → ∀ x, specParse (t.drop (c + 1)) = some x → int64 x) :
+    ∃ d, specFloat t = some d ∧ reprParse t = some d := by
+  have hs : (specFloat t).isSome = true := by
+    unfold reprGrammar at h
+    simp only [Bool.and_eq_true] at h
+    exact h.1
+  obtain ⟨d, hd⟩ := Option.isSome_iff_exists.mp hs
+  refine ⟨d, hd, ?_⟩
+  unfold reprParse
+  rw [if_pos h]
+  exact float_logic_spec_partial t d hd hx
+
+example : reprGrammar ("-1.5e-07".toList.map Char.toNat) = true ∧ reprGrammar ("0.1".toList.map Char.toNat) = true ∧
+    reprGrammar ("1e+16".toList.map Char.toNat) = true ∧ reprGrammar ("+1.5".toList.map Char.toNat) = false ∧
+    reprGrammar ("15".toList.map Char.toNat) = false ∧ reprGrammar ("1e5".toList.map Char.toNat) = false := by decide
+
+/-- **C18.join_spec**: `join` is `intercalate` (and with `keep_last` every piece is followed by the
+separator) — pins the driver op `join` -/
+theorem join_spec (strs : List Bytes) (sep : Nat) :
+    join strs sep false = List.intercalate [sep] strs ∧
+    join strs sep true = (strs.map (· ++ [sep])).flatten := by
+  constructor
+  · simp only [join, Bool.false_eq_true, if_false, joinKeepLast]
+    exact dropLast_joined strs sep
+  · simp [join, joinKeepLast]
+
+
 /-! ### the rule shipped before the repair is refuted (concrete witnesses, replayed on the code) -/
 
 /-- `ints_to_strings([-2^63])` gave `'-2'`: `np.abs` wraps, `max(·,1) = 1`, `log10(1.0) = 0` exactly -/
